@@ -143,6 +143,12 @@ func (h *inFlightRequestsHandler) addInFlight(streamId int16, managedStreamId bo
 	if h.isClosed() {
 		return nil, fmt.Errorf("%v: handler closed", h)
 	}
+	// check again, now under the write lock: another sender may have been registered since the caller's check
+	if len(h.inFlight) >= h.maxInFlight {
+		return nil, fmt.Errorf("%v: too many in-flight requests: %v", h, h.maxInFlight)
+	} else if _, found := h.inFlight[streamId]; found {
+		return nil, fmt.Errorf("%v: stream id already in use: %d", h, streamId)
+	}
 	h.inFlight[streamId] = inFlight
 	verifPoint("inflight.add", int64(streamId), int64(len(h.inFlight)))
 	return inFlight, nil
